@@ -3,7 +3,7 @@
    `session_concat` and driver as found `session_concat_v0`).  Spec: Spec/ConcatSpec.v.
    Statements only; proofs are in Proofs/Concat*.v. *)
 From Coq Require Import ZArith List.
-From EV Require Import Res Arr Concat ConcatSpec ConcatLists ConcatBatch ConcatSpan ConcatCsv ConcatTheorems.
+From EV Require Import Res Arr Concat ConcatSpec ConcatLists ConcatBatch ConcatSpan ConcatCsv ConcatTheorems ConcatPartition.
 Import ListNotations.
 Open Scope Z_scope.
 
@@ -73,6 +73,36 @@ Theorem concat_entry_parses_back : forall strs,
   csv_parse_line (concat_entry strs) = filter nonempty strs.
 Proof. exact concat_entry_parses_back_proof. Qed.
 Print Assumptions concat_entry_parses_back.
+
+(* (full, whole column) when the boundary array is a partition of the rows (non-decreasing,
+   first 0, last #rows; repeated boundaries = empty spans allowed), the stored entries parsed
+   back as CSV lines and laid end to end are exactly the non-empty strings of the column in
+   order: no string is lost, duplicated, or moved across a span boundary.  With
+   concat_session_correct and concat_data_readback this is a statement about dest.data[:]. *)
+Theorem concat_partition_complete : forall strs spans,
+  is_partition spans (len strs) ->
+  concat (map csv_parse_line (concat_spec spans strs)) = filter nonempty strs.
+Proof. exact concat_partition_complete_proof. Qed.
+Print Assumptions concat_partition_complete.
+
+Example concat_partition_complete_ex :
+  let strs := [[97]; [98; 44; 99]; []; [100; 34]; [195; 169; 44]] in
+  let spans := [0; 2; 2; 4; 5] in
+  is_partition spans (len strs) /\
+  map csv_parse_line (concat_spec spans strs) = [[[97]; [98; 44; 99]]; []; [[100; 34]]; [[195; 169; 44]]].
+Proof. vm_compute. repeat split; reflexivity. Qed.
+
+(* the partition hypothesis is needed: overlapping spans repeat a string, a gap drops one *)
+Example concat_partition_needed :
+  concat (map csv_parse_line (concat_spec [0; 2; 1; 3] [[97]; [98]; [99]])) = [[97]; [98]; [98]; [99]] /\
+  concat (map csv_parse_line (concat_spec [0; 1] [[97]; [98]])) = [[97]].
+Proof. vm_compute. split; reflexivity. Qed.
+
+(* (full) one stored entry per span: #entries = #boundaries - 1 (0 for an empty boundary array) *)
+Theorem concat_entry_count : forall strs spans,
+  length (concat_spec spans strs) = pred (length spans).
+Proof. exact concat_entry_count_proof. Qed.
+Print Assumptions concat_entry_count.
 
 (* (full, per span) one iteration of the kernel's span loop appends concat_entry of the span's
    strings to the value buffer and stores the end offset + dest_start_v in the index buffer *)
